@@ -123,7 +123,7 @@ def run(prog, rep, tier, cfg):
 
     # ---- (4) a deadline loaded under index i is stored back under the same i (every load/update pair in the miner)
     n = 0
-    for f in sorted(prog.fns.values(), key=lambda f: f.id):
+    for f in sorted(prog.bodies(), key=lambda f: f.id):
         if f.crate != CR or f.file.endswith('testing.rs') or f.kind in ('promoted', 'const'):
             continue
         lds = [c for c in f.calls if callee_is('Deadlines::load_deadline')(c)]
